@@ -25,7 +25,7 @@ PLAN = {
     "thorough": {"shards": 16, "shard_timeout": 3600, "case_timeout": 30, "grammars": 300000, "max_case_timeouts": 30},
 }
 THRESHOLDS = {
-    "quick": {"symbols_compared": 8000, "grammars_compared": 1200, "usable_compared": 1000, "corpus_grammars": 5, "recursive_symbols_seen": 500, "unreachable_symbols_seen": 200, "kind:union": 100, "kind:tuple": 100, "kind:bool": 100, "expansion_grammars": 100, "sibling_grammars_compared": 3000, "redeclared_grammars_compared": 800},
+    "quick": {"symbols_compared": 8000, "grammars_compared": 1200, "usable_compared": 1000, "corpus_grammars": 5, "recursive_symbols_seen": 500, "unreachable_symbols_seen": 200, "kind:union": 100, "kind:tuple": 100, "kind:bool": 100, "expansion_grammars": 100, "sibling_grammars_compared": 3000, "sibling:reordered": 2000, "sibling:entered-below-the-root": 300, "redeclared_grammars_compared": 800},
     "thorough": {"symbols_compared": 300000, "grammars_compared": 50000, "usable_compared": 40000, "corpus_grammars": 5},
 }
 
@@ -235,18 +235,29 @@ def run_case(case, rec):
         sub = [c for c in built.classes if c.__name__ not in drop]
         from geneticengine.grammar.grammar import extract_grammar
 
-        for classes, exp, tag in ((sub, desc["expansion"], "sub-language"), (built.classes, not desc["expansion"], "other-depthing"), (built.classes, desc["expansion"], "again")):
-            if built.start not in classes and not refmodel.is_abs(built.start):
+        variants = [(sub, built.start, desc["expansion"], "sub-language"), (built.classes, built.start, not desc["expansion"], "other-depthing"), (built.classes, built.start, desc["expansion"], "again")]
+        # the same classes listed in another order, and the hierarchy entered at a nested abstract class: registration
+        # order is an input like any other
+        shuffled = list(built.classes)
+        rng.shuffle(shuffled)
+        variants.append((shuffled, built.start, desc["expansion"], "reordered"))
+        nested = [built.ns[a["name"]] for a in desc["abstracts"] if a.get("parent") and any(p.get("parent") == a["name"] for p in desc["prods"])]
+        if nested and not str(desc["name"]).startswith(("weighted", "dep")):
+            variants.append((list(reversed(shuffled)), rng.choice(nested), desc["expansion"], "entered-below-the-root"))
+        for classes, start2, exp, tag in variants:
+            if start2 not in classes and not refmodel.is_abs(start2):
                 continue
             try:
-                g2 = extract_grammar(classes, built.start, expansion_depthing=exp)
+                g2 = extract_grammar(classes, start2, expansion_depthing=exp)
             except core.CaseTimeout:
                 raise
             except BaseException as e:  # noqa
                 rec.violation(f"extract:raises:{type(e).__name__}@{core.exc_site(e)}", {"grammar": desc["name"], "sibling": tag, "error": core.short(e)})
                 continue
             rec.count("sibling_grammars_compared")
-            compare(f"{desc['name']}#{tag}", classes, built.start, exp, g2, rec, which="sibling")
+            if tag in ("reordered", "entered-below-the-root"):
+                rec.count(f"sibling:{tag}")
+            compare(f"{desc['name']}#{tag}", classes, start2, exp, g2, rec, which="sibling")
         # the documented idiom Prod.__init__.__annotations__[field] = NewType, then a new extraction over the same classes
         d2 = grammars.retyped(desc, rng)
         if d2 is not None:
